@@ -628,7 +628,8 @@ def main():
                 "before/on/after the stack dim); a case is non-trivial when the index is non-empty")
     run.trusted += [
         "Model/C08Tensor.lean + Model/C08Index.lean: our rendering of torch (stack/select/index as coordinate maps); validated against torch each run (stream spec_vs_torch), not proved",
-        "Model/C08Lazy.lean: hand transcription of tensordict/_lazy.py (_split_index, __getitem__, ...); tied to the source by the correspondence streams of this check",
+        "Model/C08Lazy.lean + Model/C08Lazy2.lean: hand transcription of tensordict/_lazy.py (_split_index, __getitem__, __setitem__, shape ops, ...) and _torch_func.py (_lazy_cat, _stack), also over members that are lazy stacks; tied to the source by the correspondence streams of this check",
+        "object identity (which positions of a result share a member object) is outside the Lean model (members are values): covered by the oracle stream alias_stream only",
     ]
     run.build_and_audit(["TdVerif.Props.C08"])
     drv = run.driver()
@@ -649,6 +650,7 @@ def main():
     O.member_write_stream(run, 300 if quick else 4000)
     O.cat_stack_stream(run, 500 if quick else 8000)
     O.stack_of_stacks_stream(run, 500 if quick else 8000)
+    O.alias_stream(run, 500 if quick else 8000)
     run.finish("proof")
 
 
